@@ -23,7 +23,7 @@ REPO = Path(os.environ.get("SPP_REPO", "/repo"))
 # ---------------------------------------------------------------- error enum (mirrors Base/Sx.v err_code)
 ERR = {"EValue": 1, "EType": 2, "EKey": 3, "EComparison": 4, "ECalibration": 5, "EUnrecognized": 6,
        "ENotImpl": 7, "EOverflow": 8, "EIndex": 9, "EAttr": 10, "EZeroDiv": 11, "EOther": 12,
-       "Timeout": 98, "OutOfFuel": 99}
+       "Stop": 97, "Timeout": 98, "OutOfFuel": 99}
 
 
 def classify_exception(e: BaseException) -> str:
@@ -36,6 +36,8 @@ def classify_exception(e: BaseException) -> str:
         return "EUnrecognized"
     if isinstance(e, CaseTimeout):
         return "Timeout"
+    if isinstance(e, StopIteration):
+        return "Stop"
     if isinstance(e, NotImplementedError):
         return "ENotImpl"
     if isinstance(e, OverflowError):
